@@ -21,7 +21,7 @@ LEVEL = "exploration"
 RULE = ("every parameter class x configuration (must_exist, valid_types of CSV and NetCDF reads, nested ListParameters, ResultParameter "
         "with/without output type and each is_fuzzy) x ~130 raw values of every kind the parser or API delivers x working directory in "
         "{None, absolute, relative, empty}; plus live contracts during random whole-model runs; distinct by (parameter config, raw value class, wd, outcome class)")
-REQUIRED_COUNTERS = ["declared_text_outputs_judged", "library_parameters_checked", "printvars_history_rechecks", "nested_list_runs", "failed_command_rechecks", "clean_calls_judged", "contract_evaluations", "idempotence_checks", "purity_snapshots_compared", "live_double_clean_pairs", "live_argument_snapshots_compared"]
+REQUIRED_COUNTERS = ["references_given_as_objects_and_as_names", "declared_text_outputs_judged", "library_parameters_checked", "printvars_history_rechecks", "nested_list_runs", "failed_command_rechecks", "clean_calls_judged", "contract_evaluations", "idempotence_checks", "purity_snapshots_compared", "live_double_clean_pairs", "live_argument_snapshots_compared"]
 ASSUMPTIONS = ["don't-care: what StringParameter makes of non-scalars, bool given to NumberParameter, ints other than 0/1 and numeric strings other than "
                "'0'/'1' given to BooleanParameter, 'nan'/'inf'/underscore literals, relative working directories", "NaN compared NaN-aware"]
 
@@ -332,6 +332,8 @@ def cases(ctx):
             return [nest(depth - 1) if depth and rng.random() < 0.45 else rng.choice([1, 2, 3.5, "w", -7, 0.25, "x y"]) for _ in range(rng.randint(1, 4))]
         yield {"kind": "live-nested", "value": [nest(2) for _ in range(rng.randint(2, 4))] + [rng.randint(1, 9)], "api": i % 2 == 1, "cmd": rng.choice(["Dif", "union", "Read", "xor"])}
     for i in range(ctx.n(160, 8000)):
+        if i % 20 == 0:
+            yield {"kind": "objref", "variant": (i // 20 + ctx.shard) % 6, "route": ["result", "run", "program-run"][(i // 20) % 3]}
         yield {"kind": "live", "model": models.gen_model(rng, n_ops=rng.randint(1, 8), sinks=True, metadata=rng.random() < 0.4), "api": rng.random() < 0.3}
 
 
@@ -394,7 +396,42 @@ def _world(ctx, wd):
     return program, d
 
 
+def run_objref(ctx, case):
+    """A reference that cleaning must refuse is refused whichever way it is written (a result name or the command object) and
+    whichever way the command is evaluated."""
+    cmd, field, given_as = [("FuzzyNot", "A", "InFieldName"), ("CvtToFuzzy", "F", "InFieldName"), ("AMinusB", "F", "A"), ("FuzzyOr", "A", "InFieldNames"),
+                            ("Copy", "A", "InFieldName"), ("FuzzyNot", "F", "InFieldName")][case["variant"]]
+    outs = []
+    for form in ("name", "object"):
+        program = arr.new_program()
+        arr.standin(program, "A", numpy.ma.array([1.0, 2.0, 3.0]), fuzzy=False)
+        arr.standin(program, "F", numpy.ma.array([0.5, -0.5, 1.0]), fuzzy=True)
+        ref_ = field if form == "name" else program.commands[field]
+        args = {given_as: [ref_] if given_as == "InFieldNames" else ref_}
+        if cmd == "AMinusB":
+            args["B"] = "A" if form == "name" else program.commands["A"]
+        try:
+            c = program.add_command(program.find_command_class(cmd), "Res", args)
+            c = program.commands["Res"]
+            if case["route"] == "result":
+                c.result
+            elif case["route"] == "run":
+                c.run()
+            else:
+                program.run()
+            outs.append("ok")
+        except Exception as e:
+            outs.append(type(e).__name__)
+    ctx.count("clean_calls_judged", 2)
+    ctx.count("references_given_as_objects_and_as_names")
+    ctx.feature(("objref", cmd, field, case["route"], tuple(outs)))
+    if outs[0] != outs[1]:
+        ctx.fail("ResultParameter:%s-given-a-%s-field:%s-as-an-object-but-%s-by-name:%s" % (cmd, "fuzzy" if field == "F" else "plain", outs[1], outs[0], case["route"]), {"outcomes": outs})
+
+
 def run_case(ctx, case):
+    if case["kind"] == "objref":
+        return run_objref(ctx, case)
     if case["kind"] == "live":
         return run_live(ctx, case)
     if case["kind"] == "live-nested":
